@@ -206,3 +206,25 @@ Qed.
 (** the fuel never runs out on a uint64 whose set bits are all at positions <= shift *)
 Lemma shiftMulti_fuel a b s : 0 <= s < 64 -> 0 <= b < 2 ^ (s + 1) -> shiftMulti a b s <> None.
 Proof. intros Hs Hb. rewrite shiftMulti_spec by assumption. discriminate. Qed.
+
+(** the same sum written as a sum over the positions 0 .. n-1 (the form of DESIGN section 6:
+    Σ_{k : bit k of b set} a >> (s - k)) *)
+Definition zsum (l : list Z) : Z := fold_right Z.add 0 l.
+
+Lemma sumbits_as_sum n : forall a b s,
+  sumbits n a b s =
+  zsum (map (fun k => if Z.testbit b (Z.of_nat k) then a / 2 ^ (s - Z.of_nat k) else 0) (seq 0 n)).
+Proof.
+  induction n as [|n IH]; intros a b s; [reflexivity|].
+  cbn [sumbits seq map zsum fold_right]. rewrite Z.bit0_odd, Z.sub_0_r. f_equal.
+  rewrite IH. rewrite <- seq_shift, map_map. unfold zsum. f_equal. apply map_ext. intros k.
+  rewrite <- Z.div2_div, Z.div2_spec, Z.shiftr_spec by lia.
+  replace (Z.of_nat k + 1) with (Z.of_nat (S k)) by lia.
+  replace (s - 1 - Z.of_nat k) with (s - Z.of_nat (S k)) by lia. reflexivity.
+Qed.
+
+Lemma shiftMulti_sum a b s : 0 <= s < 64 -> 0 <= b < 2 ^ (s + 1) ->
+  shiftMulti a b s =
+  Some (u64 (zsum (map (fun k => if Z.testbit b (Z.of_nat k) then a / 2 ^ (s - Z.of_nat k) else 0)
+                       (seq 0 (Z.to_nat (s + 1)))))).
+Proof. intros Hs Hb. rewrite shiftMulti_spec by assumption. now rewrite sumbits_as_sum. Qed.
